@@ -99,11 +99,17 @@ def coq_audit(prop):
     """returns dict(obligations, discharged, axioms, theorems, problems)"""
     problems = []
     tdir = V + "/coq/theories"
+    # the development = the files listed in _CoqProject (what `make` builds) + Properties/
     files = []
-    for root, _, fs in os.walk(tdir):
-        for f in fs:
-            if f.endswith(".v"):
-                files.append(os.path.join(root, f))
+    for line in open(V + "/coq/_CoqProject"):
+        line = line.strip()
+        if line.endswith(".v"):
+            files.append(os.path.join(V, "coq", line))
+    pdir = tdir + "/Properties"
+    if os.path.isdir(pdir):
+        for f in os.listdir(pdir):
+            if f.endswith(".v") and os.path.join(pdir, f) not in files:
+                files.append(os.path.join(pdir, f))
     for f in sorted(files):
         src = strip_comments(open(f).read())
         for m in FORBIDDEN.finditer(src):
@@ -405,8 +411,8 @@ def seq_check(prop, tier, seed, t0, spec=None):
     known = load_known()
     build((variant,))
     audit = coq_audit(spec.get("thms", prop))
-    n_rand = spec.get("n_rand", 4000 if tier == "quick" else 120000)
-    depth = spec.get("depth", 5 if tier == "quick" else 7)
+    n_rand = spec.get("n_rand", 16000 if tier == "quick" else 300000)
+    depth = spec.get("depth", 6 if tier == "quick" else 8)
     scripts = corpus_scripts(ops)
     n_corpus = len(scripts)
     en = enum_scripts(ops, depth)
